@@ -266,7 +266,9 @@ impl RunCfg {
                 cfg.w_unsub = ch.range(0, 2);
                 cfg.w_drop = ch.pick(2);
                 cfg.w_disc_pkt = ch.pick(2);
-                cfg.resub = false;
+                // a member may repeat its SUBSCRIBE (same QoS): the broker lists
+                // it once more in the group, it must still leave completely
+                cfg.resub = ch.coin(1, 3);
             }
             P::C03 => {
                 cfg.rogue = true;
@@ -1015,6 +1017,14 @@ impl World {
         // `tx` is kept only as the handle to the shared incoming buffer: what
         // the link pushed before it ended is still taken by the router
         link.dead_rx = link.rx.take();
+        if self.clients[c].rogue && !router_dropped {
+            // remote() drops its LinkRx when the network side ends; for clients
+            // whose forwards are not judged nothing needs the buffer any more,
+            // so the receiver really goes away (the router sees a disconnected
+            // handle until it has processed the Disconnect event)
+            link.dead_rx = None;
+            self.rep.probe("link_receiver_really_dropped");
+        }
         link.pending = None;
         link.will_pending = true;
         if self.clients[c].link == Some(l) {
